@@ -130,6 +130,19 @@ def smapInsert {α : Type} : List (String × α) → String → α → List (Str
 def smapRemove {α : Type} (m : List (String × α)) (key : String) : List (String × α) :=
   m.filter (fun e => e.1 != key)
 
+/-! ### maps keyed by an opaque type (`OrderedMap<ChannelId, V>`, `Map<PaymentHash, V>`) as association lists without
+    duplicate keys.  The iteration order of the Rust map is NOT represented: the translator only admits the
+    order-insensitive operations `get`, `contains_key`, `insert`, `len`, `is_empty`, `values().sum()`. -/
+
+def omapGet {κ α : Type} [DecidableEq κ] : List (κ × α) → κ → Option α
+  | [], _ => none
+  | (k, v) :: r, key => if k = key then some v else omapGet r key
+
+/-- `m.insert(key, x)`: replaces the value of an existing key in place, otherwise appends -/
+def omapInsert {κ α : Type} [DecidableEq κ] : List (κ × α) → κ → α → List (κ × α)
+  | [], key, x => [(key, x)]
+  | (k, v) :: r, key, x => if k = key then (k, x) :: r else (k, v) :: omapInsert r key x
+
 /-- `a..b` -/
 def range (a b : Nat) : List Nat := List.range' a (b - a)
 
@@ -151,6 +164,84 @@ def usum (max : Nat) (l : List Nat) : M Nat := l.foldlM (fun acc x => uadd max a
     the macro only logs and **execution continues**. -/
 def policyErr (filterErr : String → Bool) (tag : String) : M Unit :=
   if filterErr tag then fail tag else pure ()
+
+/-! ### round 8: bitwise operators, byte strings, slices -/
+
+/-- `!x` on an unsigned type with maximum `max` (all bits flipped) -/
+def unot (max a : Nat) : Nat := max - a
+
+/-- `v[a..b]` (`v[a..]`: `b = len`, `v[..b]`: `a = 0`): panics unless `a ≤ b ≤ len` -/
+def slice {α : Type} (l : List α) (a b : Nat) : M (List α) :=
+  if a ≤ b ∧ b ≤ l.length then pure ((l.drop a).take (b - a)) else panic
+
+/-- `x.to_be_bytes()` of a type of `n` bytes -/
+def toBeBytes (n x : Nat) : List Nat := (List.range n).map (fun i => (x >>> (8 * (n - 1 - i))) % 256)
+/-- `x.to_le_bytes()` of a type of `n` bytes -/
+def toLeBytes (n x : Nat) : List Nat := (List.range n).map (fun i => (x >>> (8 * i)) % 256)
+/-- `uN::from_be_bytes(arr)` -/
+def fromBeBytes (l : List Nat) : Nat := l.foldl (fun acc b => acc * 256 + b) 0
+/-- `uN::from_le_bytes(arr)` -/
+def fromLeBytes (l : List Nat) : Nat := fromBeBytes l.reverse
+/-- `slice.try_into().unwrap()` into `[u8; n]`: panics unless the length is `n` -/
+def arrayOfSlice {α : Type} (n : Nat) (l : List α) : M (List α) := if l.length = n then pure l else panic
+
+/-- `v.remove(i)`: the removed element and the rest; panics when out of range -/
+def vecRemove {α : Type} (l : List α) (i : Nat) : M (α × List α) :=
+  match l[i]? with
+  | some x => pure (x, l.eraseIdx i)
+  | none => panic
+
+/-- `iter.enumerate()` -/
+def enumerate {α : Type} (l : List α) : List (Nat × α) := (List.range l.length).zip l
+
+/-! ### loops with early exit (`continue`, `break`, `return` inside `for` / the structural `while` forms)
+
+The body of the loop maps the loop state (the tuple of outer variables the body assigns) and the element to
+`.next s` (go on; also `continue`), `.brk s` (`break`) or `.ret r` (`return r` from the function, `r` already in the
+shape the Lean function returns).  `?` and `Err` need nothing: they are errors of `M` and leave the fold. -/
+
+inductive Flow (σ ρ : Type) where
+  | next (s : σ)
+  | brk (s : σ)
+  | ret (r : ρ)
+
+/-- `.inl s`: the loop ended (exhausted or `break`) with state `s`; `.inr r`: the function returned `r` -/
+def loopM {α σ ρ : Type} : List α → σ → (σ → α → M (Flow σ ρ)) → M (σ ⊕ ρ)
+  | [], s, _ => pure (.inl s)
+  | x :: xs, s, f => do
+    match ← f s x with
+    | .next s' => loopM xs s' f
+    | .brk s' => pure (.inl s')
+    | .ret r => pure (.inr r)
+
+/-- a loop with `continue`/`break` but no `return` -/
+def loopB {α σ : Type} (l : List α) (s : σ) (f : σ → α → M (Flow σ Empty)) : M σ := do
+  match ← loopM l s f with
+  | .inl s' => pure s'
+  | .inr e => nomatch e
+
+/-! ### maps and sets with other than string keys
+
+`BTreeMap<uN, V>` / `BTreeSet<uN>`: association list / list kept sorted by key (= Rust's iteration order).
+Any other key type (opaque values, tuples) and `HashMap`/`HashSet`: insertion order (`omapGet`/`omapInsert` above,
+`omapRemove`); the translator refuses to iterate over or compare such a collection (only order-insensitive consumers
+of `values()`/`keys()` are admitted: `sum`, `count`, `any`, `all`, `min`, `max`), so the order is never observed. -/
+
+def omapRemove {κ α : Type} [DecidableEq κ] (m : List (κ × α)) (key : κ) : List (κ × α) :=
+  m.filter (fun e => e.1 != key)
+
+def nmapInsert {α : Type} : List (Nat × α) → Nat → α → List (Nat × α)
+  | [], key, x => [(key, x)]
+  | (k, v) :: r, key, x =>
+    if k = key then (k, x) :: r
+    else if key < k then (key, x) :: (k, v) :: r
+    else (k, v) :: nmapInsert r key x
+
+def nsetInsert : List Nat → Nat → List Nat
+  | [], x => [x]
+  | k :: r, x => if k = x then k :: r else if x < k then x :: k :: r else k :: nsetInsert r x
+
+def asetInsert {κ : Type} [DecidableEq κ] (l : List κ) (x : κ) : List κ := if l.contains x then l else l ++ [x]
 
 /-! ### printing of outcomes for the line-protocol driver -/
 def Fail.show : Fail → String
